@@ -42,7 +42,7 @@ prop('C03', level='proof', technique=_T_V + '; ' + _T_K,
      level_text='Each slicing decoder (Ethernet II, VLAN, MACsec, Linux SLL, ARP, IPv4, IPv6 + extension chain, AH, UDP, TCP, ICMPv4/6, and the SlicedPacket cursor from_ip) has a Verus postcondition taken from the wire format: accept set, header length, payload range and every accessor as a function of the input bytes; the IPv6 extension walk is proved equal to an RFC 8200 spec function with a loop invariant. At the Ethernet II / ether type doors the cursor is proved to dispatch ARP, IPv4 and IPv6 to exactly those decoders (offsets shifted by 14 behind Ethernet II); the stacking of VLAN / MACsec link extensions has a partial contract (frame, bounds, prefix) and is decided on bounded inputs by Kani against a reference walk written from 802.1Q / 802.1AE (h_link), the Linux SLL door likewise.',
      level_note=_NOTE_V + '; numeric offsets obtained from pointer differences are not decided by Verus (bounded Kani harnesses c07_offsets_*)')
 prop('C04', level='proof', technique=_T_V + '; ' + _T_K,
-     level_text='Struct decoding vs slicing at the IP door: PacketHeaders::from_ip_slice is proved (Verus, all inputs) to have the verdict of SlicedPacket::from_ip (same IPv4 boundary spec w4_strict, same transport rule tr_accepts), the same remaining payload range per transport kind and the same IP faults; the lemma vx_c04_headers_vs_sliced_v4 states C04 for IPv4 over the two contracts. Underneath, IpHeaders::from_slice[_lax], from_ipv4_slice[_lax], from_ipv6_slice[_lax], Ipv4Header/Ipv6Header/UdpHeader::from_slice, read_transport and - since the second session - Ipv6Extensions::from_slice (struct walk, loop invariant against swalk) are proved against the spec functions the slice decoders are proved against; the wire-format contracts of the slice side (tagged C03) count as premises. For IPv6 the struct side is specified by the struct walk swalk (one header per kind: the documented difference). Assumed: Ipv6Extensions::from_slice_lax in the quick tier only (proved in the thorough tier), TcpHeader::from_slice field copy. NOT under Verus contract: PacketHeaders::from_ethernet_slice / from_ether_type and all of LaxPacketHeaders - bounded Kani comparisons from the IP door (c04_slim_*, c04_lax_*) and at the link level (h_link::c04_*, c06_link_*).',
+     level_text='Struct decoding vs slicing at the IP door: PacketHeaders::from_ip_slice is proved (Verus, all inputs) to have the verdict of SlicedPacket::from_ip (same IPv4 boundary spec w4_strict, same transport rule tr_accepts), the same remaining payload range per transport kind and the same IP faults; the lemma vx_c04_headers_vs_sliced_v4 states C04 for IPv4 over the two contracts. Underneath, IpHeaders::from_slice[_lax], from_ipv4_slice[_lax], from_ipv6_slice[_lax], Ipv4Header/Ipv6Header/UdpHeader::from_slice, read_transport and - since the second session - Ipv6Extensions::from_slice (struct walk, loop invariant against swalk) are proved against the spec functions the slice decoders are proved against; the wire-format contracts of the slice side (tagged C03) count as premises. For IPv6 the struct side is specified by the struct walk swalk (one header per kind: the documented difference). Assumed: Ipv6Extensions::from_slice_lax (proof written but unstable, not part of a tier; bounded check p_ext_struct_walk_lax), TcpHeader::from_slice field copy. NOT under Verus contract: PacketHeaders::from_ethernet_slice / from_ether_type and all of LaxPacketHeaders - bounded Kani comparisons from the IP door (c04_slim_*, c04_lax_*) and at the link level (h_link::c04_*, c06_link_*).',
      level_note=_NOTE_V + '; ' + _NOTE_K)
 prop('C05', level='proof', technique=_T_V + '; ' + _T_K,
      level_text='The lax decoders (LaxIpv4Slice, LaxIpv6Slice, LaxIpSlice, Ipv6ExtensionsSlice::from_slice_lax, LaxMacsecSlice, UdpSlice::from_slice_lax) are proved by Verus against the same wire-format spec functions as the strict ones: where the strict spec succeeds the lax result is the same boundary with no stop error, otherwise the prefix in front of the fault and the fault as stop error; incomplete <=> the length field promised more than the slice holds, with the slice as length source. The lax whole-packet cursor (slice_transport, slice_arp, slice_ip, slice_ether_type, parse_from_ip, parse_from_ether_type) and LaxSlicedPacket::from_ip / from_ether_type are under contract (stop errors with layer, real offset, real lengths, truthful length source), and the lemma vx_c05_lax_extends_strict_v4 proves C05 for IPv4 at the IP door from the strict and the lax contract alone. LaxPacketHeaders and the link-extension stacking are decided on bounded inputs by Kani (c05_*, c04_lax_*, h_link).',
